@@ -1,0 +1,30 @@
+//go:build verif
+
+package rockredis
+
+import "errors"
+
+// Hooks of the determinism harness (/verif, group Determ, property C07). Built only with -tags verif.
+
+// VerifLocalExpireOnce runs, synchronously, one full pass of what the local-deletion policy's
+// background goroutine does every localExpCheckInterval seconds on the node's own clock: scan the
+// expire-time index up to time.Now() and physically delete the expired keys.
+func (r *RockDB) VerifLocalExpireOnce() error {
+	exp, ok := r.expiration.(*localExpiration)
+	if !ok {
+		return errors.New("not the local deletion policy")
+	}
+	buf := newLocalBatchedBuffer(r, localBatchedBufSize)
+	defer buf.Destroy()
+	stop := make(chan struct{})
+	exp.TTLChecker.setNextCheckTime(0, true)
+	for {
+		err := exp.TTLChecker.check(buf, stop)
+		buf.commit()
+		if err == ErrLocalBatchedBuffFull {
+			exp.TTLChecker.setNextCheckTime(0, true)
+			continue
+		}
+		return err
+	}
+}
